@@ -49,6 +49,8 @@ def _cases(tier):
                 cases += [{"s": s, "pos": pos, "fmt": fm} for s in src]
         cases += [{"s": s, "pos": "whole", "fmt": "black"} for s in _strings(ALPHA_Q, 4) if len(s) == 4]
         cases += [{"s": p + "ab" + q, "pos": "whole", "fmt": "black"} for p in BOUNDARY for q in BOUNDARY]
+        for core in ("a\nb", "\n", "x\n\ny"):
+            cases += [{"s": p + core + q, "pos": pos, "fmt": "black"} for p in BOUNDARY for q in BOUNDARY for pos in ("whole", "list")]
     else:
         s5 = _strings(ALPHA_T, 5)
         cases += [{"s": s, "pos": "whole", "fmt": "black"} for s in s5]
